@@ -65,7 +65,7 @@ func processFiles(fileSpecifiers map[string]string, program string, outputFile s
 		}
 	}
 
-	outputFp, err := os.OpenFile(outputFile, os.O_WRONLY|os.O_CREATE, 0600)
+	outputFp, err := os.OpenFile(outputFile, os.O_WRONLY|os.O_CREATE|os.O_TRUNC, 0600)
 	if err != nil {
 		return -1, err
 	}
